@@ -6,7 +6,7 @@
    permutation of the input. *)
 From Coq Require Import List Arith ZArith Lia Permutation Bool.
 Import ListNotations.
-From NS Require Import Base.Res Base.ArrLemmas Sort.Partition Sort.PartitionProofs Sort.PartitionRank Sort.Pinned.
+From NS Require Import Base.Order Base.Res Base.ArrLemmas Sort.Partition Sort.PartitionProofs Sort.PartitionRank Sort.Pinned Run.RunSort.
 
 Theorem C15_partition_rank :
   forall (A : Type) (leb : A -> A -> bool),
@@ -37,3 +37,26 @@ Print Assumptions C15_doc_example.
 Theorem C15_v0_refuted : partition_v0 Z Z.leb [5%Z] 0 = Panic.
 Proof. exact partition_v0_refuted. Qed.
 Print Assumptions C15_v0_refuted.
+
+(* Element types whose order is coarser than identity (N64: -0.0 = +0.0 with different bits; records ordered
+   by a key).  The theorem above asks only for a total leb, so it covers them: the executable instance the
+   correspondence check uses for N64 lanes with both zeros is the preorder leb_half on 2 * key + tag
+   (Run/RunSort.v), which is total and transitive but not antisymmetric; the partition keeps every element's
+   identity (Permutation), so "equal" elements are not interchangeable. *)
+Theorem C15_preorder_instance :
+  total leb_half /\ transitive leb_half /\
+  (exists x y : Z, leb_half x y = true /\ leb_half y x = true /\ x <> y).
+Proof.
+  repeat split.
+  - intros x y. unfold leb_half. destruct (Z.leb_spec (x / 2) (y / 2)) as [H|H]; [left; reflexivity|right].
+    apply Z.leb_le. lia.
+  - intros x y z' H1 H2. unfold leb_half in *. apply Z.leb_le in H1, H2. apply Z.leb_le. lia.
+  - exists 0%Z, 1%Z. split; [reflexivity|split; [reflexivity|discriminate]].
+Qed.
+Print Assumptions C15_preorder_instance.
+
+(* +0.0 (code 0) in front, -1.0 (code -2), pivot -0.0 (code 1) at the end: rank 1, all three codes kept *)
+Example C15_signed_zeros :
+  partition Z leb_half [0; -2; 1]%Z 2 = Ok (1, [-2; 1; 0]%Z).
+Proof. vm_compute. reflexivity. Qed.
+Print Assumptions C15_signed_zeros.
